@@ -269,6 +269,8 @@ def to_z3(v, reg=None, sort=None):
         e = reg.strlit(v)
     elif z3.is_expr(v):
         e = v
+    elif isinstance(v, Opaque):
+        e = v.term
     else:
         raise OutOfSubset("cannot convert %r to a z3 term" % (v,))
     if sort is not None and e.sort() != sort:
@@ -374,6 +376,8 @@ def merge(cond, a, b):
     if isinstance(a, SymSeq) and isinstance(b, SymSeq) and a.width == b.width and len(a.cols) == len(b.cols):
         return SymSeq(z3.If(cond, a.length, b.length),
                       [z3.If(cond, x, y) for x, y in zip(a.cols, b.cols)], a.width, a.kind, a.name)
+    if type(a).__name__ == 'SymDictOfLists' and type(b).__name__ == 'SymDictOfLists':
+        return type(a)(z3.If(cond, a.dom, b.dom), z3.If(cond, a.cnt, b.cnt), z3.If(cond, a.item, b.item), a.ksort, a.esort)
     if isinstance(a, Opaque) and isinstance(b, Opaque) and a.term.sort() == b.term.sort():
         return Opaque(z3.If(cond, a.term, b.term), a.tag)
     raise OutOfSubset("cannot merge %r and %r" % (a, b))
